@@ -136,7 +136,7 @@ def header_codec(run):
     IO = real_module(MOD)
     fn = f"{MOD}.write_scsv_header"
     conv = {"string": str, "integer": int, "float": float, "complex": complex, "boolean": IO._parse_scsv_bool}
-    table = {"string": ["", "N/A", "x y", "0", 0], "integer": ["0", "-1", 0, -1, 7], "float": ["NaN", "0.0", "inf", 0.0, -1.0, 1.5, float("nan")],
+    table = {"string": ["", "N/A", "x y", "0", 0], "integer": ["0", "-1", 0, -1, 7, 10 ** 18], "float": ["NaN", "0.0", "inf", 0.0, -1.0, 1.5, float("nan"), "-99999.99", -99999.99, 1234567.0, 0.1 + 0.2, 1e-300, "0.1234567891"],
              "complex": ["NaN", "0j", "1+2j", 0j, 1 + 2j], "boolean": ["", False, True]}
     bad = []
     n = 0
@@ -216,7 +216,7 @@ def nat_roundtrip(seed, count):
         if delim in missing or delim == missing:
             missing = "-" if delim != "-" else "?"
         nf = int(rng.integers(1, 9))
-        nrows = int(rng.choice([1, 2, 17, 300])) if it % 40 else 2000
+        nrows = int(rng.choice([1, 2, 17, 300])) if it % 40 else int(rng.choice([2000, 2049, 4097, 5000]))
         fields, cols = [], []
         for k in range(nf):
             t = str(rng.choice(["string", "integer", "float", "boolean", "complex"]))
@@ -239,9 +239,9 @@ def nat_roundtrip(seed, count):
                 fld["fill"] = fill if rng.random() < 0.7 else int(fill)
                 col = [int(rng.choice([0, -1, 999999, 7, -(10 ** 18), 10 ** 30, int(rng.integers(-1000, 1000))])) for _ in range(nrows)]
             elif t == "float":
-                fill = str(rng.choice(["NaN", "0.0", "-1.0", "nan", "inf"]))
+                fill = str(rng.choice(["NaN", "0.0", "-1.0", "nan", "inf", "-99999.99", "1234567.0", "0.1234567891", "1e-300", "-999.25"]))
                 fld["fill"] = fill if (rng.random() < 0.7 or fill in ("nan", "inf")) else float(fill)
-                col = [float(rng.choice([0.0, -1.0, float("nan"), float("inf"), float("-inf"), 1e-300, 1.5, rng.normal() * 1e10, 0.1 + 0.2])) for _ in range(nrows)]
+                col = [float(rng.choice([0.0, -1.0, float("nan"), float("inf"), float("-inf"), 1e-300, 1.5, rng.normal() * 1e10, 0.1 + 0.2, float(fill)])) for _ in range(nrows)]
             elif t == "boolean":
                 col = [bool(rng.integers(2)) for _ in range(nrows)]
                 fill = ""
@@ -315,8 +315,11 @@ def nat_roundtrip(seed, count):
             # recorded findings, identified by the input class that triggers them (anything else is a violation)
             if delim == " " and all("corruption class" not in m for m in msgs):
                 known = "scsv-space-delimiter"
-            elif len(msgs) == 1 and "wrote" in msgs[0] and any(f["type"] in ("integer", "float", "complex") and any(str(v) == missing for v in c_) for f, c_ in zip(fields, cols)):
-                known = "scsv-numeric-equals-marker"
+            elif all("wrote" in m_ for m_ in msgs):
+                # every mismatch is a numeric cell whose text equals the missing marker (recorded finding); anything else is reported
+                hit_fields = [f for f, c_ in zip(fields, cols) if f["type"] in ("integer", "float", "complex") and any(str(v) == missing for v in c_)]
+                if hit_fields and all(any(m_.startswith(f["name"] + " ") for f in hit_fields) and f"wrote {missing}," in m_.replace("wrote (", "wrote ") for m_ in msgs):
+                    known = "scsv-numeric-equals-marker"
             fails.append(dict(case=f"{seed}.{it}", checker="contracts.C16:nat_roundtrip_case", inputs=dict(seed=int(seed), it=it, count=count, delimiter=delim, missing=missing), what="; ".join(msgs[:2]), known=known))
     return dict(evaluations=ev, failures=fails[:6])
 
